@@ -28,9 +28,22 @@ extern void pxgstrf_relax_snode(const int_t, superlumt_options_t *, pxgstrf_rela
  * The thread that takes the LAST panel becomes slow (15 ms per column); the threads with pnum >= 2 enter
  * p?gstrf_thread only after some other thread has left its main loop (and has run p?gstrf_WorkFree). */
 static volatile long dl_last_holder = -1, dl_ended = 0;
+/* invariant of the two-ended user stack (UstackModel: used = top1 + (size - top2), top1 <= top2, used < size), observed
+   inside the lock after every reservation of every thread */
+static volatile long us_bad = 0, us_events = 0, us_rec[5];
+static int dl_on = 0;
 static void delay_cb(int ev, long pnum, long a, long b, long c, const void *p)
 {
     const pxgstrf_shared_t *sh = (const pxgstrf_shared_t *) p;
+    if (ev == SLU_VEV_USTACK) {
+        const long *q = (const long *) p;
+        ++us_events;
+        if (q && !us_bad && (q[2] > q[3] || q[1] != q[2] + (q[0] - q[3]) || q[1] > q[0] || q[2] < 0 || q[3] < 0)) {
+            us_bad = 1; us_rec[0] = q[0]; us_rec[1] = q[1]; us_rec[2] = q[2]; us_rec[3] = q[3]; us_rec[4] = a;
+        }
+        return;
+    }
+    if (!dl_on) return;
     if (ev == SLU_VEV_SCHED) { if (a != EMPTY && sh && sh->tasks_remain == 0 && dl_last_holder < 0) dl_last_holder = pnum; }
     else if (ev == SLU_VEV_RELEASE) { if (pnum == dl_last_holder) usleep(15000); }
     else if (ev == SLU_VEV_THREAD_END) { if (pnum != dl_last_holder) dl_ended = 1; }
@@ -149,8 +162,9 @@ static void run_case(vcase_t *c)
     mu.for_lu = mu.total_needed = -1; mu.expansions = -1;
 
 #ifdef SLU_MT_VERIF
-    dl_last_holder = -1; dl_ended = 0;
-    slu_mt_verif_cb = c->delay ? delay_cb : 0;
+    dl_last_holder = -1; dl_ended = 0; us_bad = 0; us_events = 0;
+    dl_on = c->delay ? 1 : 0;
+    slu_mt_verif_cb = delay_cb;
 #endif
 #ifdef VERIF_FAULT
     ledger_trace_init();
@@ -177,6 +191,10 @@ static void run_case(vcase_t *c)
 #endif
 
     fprintf(out, "RES %s info=%ld", c->id, (long) info);
+#ifdef SLU_MT_VERIF
+    if (us_bad) fprintf(out, " ustack=bad:size=%ld,used=%ld,top1=%ld,top2=%ld,after_request_of=%ld", us_rec[0], us_rec[1], us_rec[2], us_rec[3], us_rec[4]);
+    else fprintf(out, " ustack=ok:%ld", us_events);
+#endif
     if (user) {
 #ifdef VERIF_ASAN
         fprintf(out, " canary=na");
